@@ -257,7 +257,12 @@ bool FileManager::readStream(std::istream &_istream, MeshT &_mesh,
                 hes.emplace_back(v1);
             }
 
-            _mesh.add_face(hes, _topologyCheck);
+            if(!_mesh.add_face(hes, _topologyCheck).is_valid()) {
+                if (verbosity_level_ >= 1) {
+                    std::cerr << "OVM File loading error: could not add face #" << i << std::endl;
+                }
+                return false;
+            }
         }
     }
     size_t n_halffaces = 2 * n_faces;
@@ -317,7 +322,12 @@ bool FileManager::readStream(std::istream &_istream, MeshT &_mesh,
                 hfs.emplace_back(v1);
             }
 
-            _mesh.add_cell(hfs, _topologyCheck);
+            if(!_mesh.add_cell(hfs, _topologyCheck).is_valid()) {
+                if (verbosity_level_ >= 1) {
+                    std::cerr << "OVM File loading error: could not add cell #" << i << std::endl;
+                }
+                return false;
+            }
         }
     }
 
